@@ -7,7 +7,13 @@
       instance of the exchange relation, same denotation under every monoidal functor;
     * the model's transcription of `normalize` yields exactly such a trace (so no step of it
       can fail), and the code's own trace is checked against `rstep` on every run;
-    * a returned normal form has no redex left and is a fixed point of `normal_form`.
+    * a returned normal form has no redex left and is a fixed point of `normal_form`;
+    * `normal_form` is a function of the `normalize` trace, with the CACHE OF ALL STEPS of
+      rewriting.py:146-151: it raises NotImplementedError iff the trace hands out a diagram that is
+      `==` to ANY earlier step (not only to the input: the trace of a disconnected diagram may leave
+      the input along a tail and cycle elsewhere), otherwise it returns the last step of the trace;
+      with more passes of fuel than there are diagrams to visit the model never runs out of fuel:
+      it returns a fixed point or reports non-termination.
   NOT proved (full statements below as `Prop`s that no theorem claims; supported — not proved —
   by the exhaustive interchanger-class exploration of the thorough tier on the real code):
     * `C06_termination`: for connected diagrams the rewriting terminates;
@@ -15,6 +21,7 @@
   These are the confluence/termination theorems of arXiv:1804.07832.
 -/
 import Proofs.Normalize
+import Proofs.NormalFormRepeat
 
 namespace DV.C06
 open DV
@@ -49,6 +56,86 @@ theorem normal_form_fixed (left : Bool) (fuel : Nat) (d n : Diagram)
     terminal left n = true ∧ ∀ fuel', n.normalForm left (fuel' + 1) = .ok n :=
   let r := normalFormLoop_fixed h; ⟨r.1, fun f => r.2 f []⟩
 
+/-- `normal_form` as a function of the `normalize` trace (fuel = passes): NotImplementedError iff a
+    step is `==` to an earlier step, else the last step of a finished trace. -/
+theorem normal_form_of_trace (left : Bool) (fuel : Nat) (d : Diagram) (steps : List Diagram)
+    (fin : Bool) (h : normalizeTrace left fuel d [] = .ok (steps, fin)) :
+    d.normalForm left fuel =
+      if hasRepeat [] steps then .error .notImpl
+      else if fin then .ok (lastOr d steps) else .error .fuel := by
+  obtain ⟨steps', hs, hl⟩ := normalFormLoop_of_trace (cache := []) h
+  simp only [List.nil_append] at hs
+  subst hs
+  exact hl
+
+/-- Non-termination is REPORTED whichever earlier diagram the trace comes back to: if step `j` of
+    the trace is `==` to an earlier step `i` (not necessarily the input, not necessarily the first
+    step), `normal_form` raises NotImplementedError. -/
+theorem normal_form_detects_any_repeat (left : Bool) (fuel : Nat) (d : Diagram)
+    (steps : List Diagram) (fin : Bool) (h : normalizeTrace left fuel d [] = .ok (steps, fin))
+    (i j : Nat) (hij : i < j) (hj : j < steps.length)
+    (he : (steps[i]'(by omega)).eqv steps[j] = true) :
+    d.normalForm left fuel = .error .notImpl := by
+  rw [normal_form_of_trace left fuel d steps fin h,
+    (hasRepeat_iff [] steps).mpr ⟨j, hj, Or.inr ⟨i, hij, he⟩⟩]
+  rfl
+
+/-- … and only then: NotImplementedError means that some step repeated an earlier one. -/
+theorem normal_form_notimpl_only_on_repeat (left : Bool) (fuel : Nat) (d : Diagram)
+    (steps : List Diagram) (fin : Bool) (h : normalizeTrace left fuel d [] = .ok (steps, fin))
+    (hn : d.normalForm left fuel = .error .notImpl) :
+    ∃ (i j : Nat) (hij : i < j) (hj : j < steps.length),
+      (steps[i]'(by omega)).eqv steps[j] = true := by
+  rw [normal_form_of_trace left fuel d steps fin h] at hn
+  by_cases hr : hasRepeat [] steps = true
+  · obtain ⟨j, hj, hc | ⟨i, hi, he⟩⟩ := (hasRepeat_iff [] steps).mp hr
+    · obtain ⟨c, hc, _⟩ := hc
+      cases hc
+    · exact ⟨i, j, hi, hj, he⟩
+  · simp only [hr, Bool.false_eq_true, if_false] at hn
+    split at hn <;> cases hn
+
+/-- The index the driver's `nfrepeat` reports exists exactly when NotImplementedError is raised. -/
+theorem normal_form_notimpl_iff_first_repeat (left : Bool) (fuel : Nat) (d : Diagram)
+    (steps : List Diagram) (fin : Bool) (h : normalizeTrace left fuel d [] = .ok (steps, fin)) :
+    d.normalForm left fuel = .error .notImpl ↔ (firstRepeat [] steps 0).isSome = true := by
+  rw [normal_form_of_trace left fuel d steps fin h, firstRepeat_isSome]
+  by_cases hr : hasRepeat [] steps = true
+  · simp [hr]
+  · simp only [hr, Bool.false_eq_true, if_false, iff_false]
+    split <;> simp
+
+/-- Without a repeat a finished trace is walked to its end: the value is its last step. -/
+theorem normal_form_returns_last_of_trace (left : Bool) (fuel : Nat) (d : Diagram)
+    (steps : List Diagram) (h : normalizeTrace left fuel d [] = .ok (steps, true))
+    (hr : hasRepeat [] steps = false) : d.normalForm left fuel = .ok (lastOr d steps) := by
+  rw [normal_form_of_trace left fuel d steps true h, hr]
+  rfl
+
+/-- With more passes of fuel than there are diagrams the trace can visit (`U` lists them up to
+    `==`), the model never answers "out of fuel": it returns a fixed point or reports
+    non-termination. -/
+theorem normal_form_no_fuel_error (left : Bool) (fuel : Nat) (d : Diagram) (steps U : List Diagram)
+    (fin : Bool) (h : normalizeTrace left fuel d [] = .ok (steps, fin))
+    (hU : ∀ s ∈ steps, ∃ u ∈ U, u.eqv s = true) (hfuel : U.length < fuel) :
+    d.normalForm left fuel = .error .notImpl ∨
+      ∃ n, d.normalForm left fuel = .ok n ∧ terminal left n = true ∧
+        ∀ fuel', n.normalForm left (fuel' + 1) = .ok n := by
+  cases fin with
+  | false =>
+    left
+    have hlen := normalizeTrace_length h
+    simp only [List.length_nil, Nat.zero_add] at hlen
+    obtain ⟨i, j, hij, hj, he⟩ := exists_repeat_of_finite hU (by omega)
+    exact normal_form_detects_any_repeat left fuel d steps false h i j hij hj he
+  | true =>
+    have hnf := normal_form_of_trace left fuel d steps true h
+    by_cases hr : hasRepeat [] steps = true
+    · left; rw [hnf, hr]; rfl
+    · right
+      simp only [hr, Bool.false_eq_true, if_false, if_true] at hnf
+      exact ⟨_, hnf, normal_form_fixed left fuel d _ hnf⟩
+
 /-- The interchanger equivalence generated by `Exch`. -/
 inductive ExchEquiv : Diagram → Diagram → Prop
   | refl (d) : ExchEquiv d d
@@ -82,5 +169,20 @@ example : (match normalizePass false 1 0 d0 [] with
 example : (match d0.normalForm false 10 with
     | .ok n => n.boxes == [f, g] && n.offsets == [0, 1] && terminal false n
     | .error _ => false) = true := by decide
+
+/-! Non-vacuity of the repeat theorems: two nested closed loops
+    `unit0 >> Id(x) @ unit1 >> Id(x) @ counit1 >> counit0` (disconnected).  Its right normalisation
+    never ends, never comes back to the input, and repeats a later step: NotImplementedError. -/
+private def bx (n : String) (dom cod : Ty) : Box := { name := n, dom := dom, cod := cod }
+private def loops : Diagram :=
+  match Diagram.mk? [] [] [bx "unit0" [] [x], bx "unit1" [] [x], bx "counit1" [x] [], bx "counit0" [x] []]
+      [0, 1, 1, 0] with
+  | .ok d => d | .error _ => Diagram.id []
+
+example : loops.boxes.length = 4 := by decide
+example : (match normalizeTrace false 8 loops [] with
+    | .ok (steps, fin) => !fin && steps.all (fun s => !(s.eqv loops)) && hasRepeat [] steps
+    | .error _ => false) = true := by decide +kernel
+example : loops.normalForm false 8 = .error .notImpl := by decide +kernel
 
 end DV.C06
